@@ -226,8 +226,17 @@ impl TransportFn<()> for P9Run {
             if violated() {
                 break;
             }
-            let rl = choose(if flip(1, 2) { 12 } else { 300 }) as usize;
-            let sl = choose(if flip(1, 3) { 9 } else { 400 }) as usize;
+            let rl = match choose(14) {
+                // large messages (a Twrite under a large msize): page boundaries and many pages
+                0 => [4095usize, 4096, 4097, 61440, 61441, 65536, 131072][choose(7) as usize],
+                1..=6 => choose(12) as usize,
+                _ => choose(300) as usize,
+            };
+            let sl = match choose(14) {
+                0 => [4096usize, 4097, 65536][choose(3) as usize],
+                1..=4 => choose(9) as usize,
+                _ => choose(400) as usize,
+            };
             let req: Vec<u8> = (0..rl).map(|i| (i as u8).wrapping_mul(9).wrapping_add(k as u8)).collect();
             let mut resp = vec![0u8; sl];
             let r = p9.request(&req, &mut resp);
@@ -404,7 +413,7 @@ impl TransportFn<()> for GpuRun {
                     }
                 }
                 1 | 2 => {
-                    let (w_, h_) = if flip(1, 3) { self.display } else { (1 + choose(96) as u32, 1 + choose(96) as u32) };
+                    let (w_, h_) = if flip(1, 3) && self.display.0 != 0 && self.display.1 != 0 { self.display } else { (1 + choose(96) as u32, 1 + choose(96) as u32) };
                     let use_setup = (w_, h_) == self.display && flip(1, 2);
                     let had = fb.is_some();
                     let r = if use_setup { gpu.setup_framebuffer().map(|b| b.len()) } else { gpu.change_resolution(w_, h_).map(|b| b.len()) };
@@ -635,7 +644,12 @@ fn gpu(faulty: bool) {
     let edid_offered = flip(2, 3);
     let feats = common_feats(tk) | (edid_offered as u64) << 1 | choose(2);
     zoo::setup_device(Kind::Gpu, feats, Kind::Gpu.default_config());
-    let display = (1 + choose(128) as u32, 1 + choose(128) as u32);
+    // now and then the device reports an empty rectangle for scanout 0 (nothing plugged in)
+    let display = match choose(12) {
+        0 => (0, 1 + choose(128) as u32),
+        1 => (0, 0),
+        _ => (1 + choose(128) as u32, 1 + choose(128) as u32),
+    };
     // EDID blob: random but with a base block; sometimes a QEMU-like one, sometimes degenerate
     let mut edid = vec![0u8; 1024];
     for (i, b) in edid.iter_mut().enumerate().take(256) {
@@ -972,7 +986,14 @@ fn sound(faulty: bool) {
     crate::scen::queue::draw_device_policy();
     zoo::setup_device(Kind::Sound, common_feats(tk), Kind::Sound.default_config());
     let both_output = flip(1, 2);
+    // a lazy device only looks at its queues when the driver has nothing left to do but wait: the
+    // transmit queue then fills completely before the first period is consumed
+    let lazy = flip(1, 4);
     with(|w| {
+        if lazy {
+            w.cfg.step_eighths = 0;
+            w.cfg.step_at_stores = false;
+        }
         let mut d = SoundDev::new();
         d.faulty = faulty;
         if both_output {
